@@ -591,6 +591,15 @@ func genC07(r *rng, tier string, res *Result) {
 		res.Cases++
 	}
 	res.Tags["reads_of_acknowledged_keys_during_growth"] = growReads
+	for i := 0; i < scale(tier, 8, 60); i++ {
+		var fsys fs.FileSystem = tfs.New()
+		dir := "db"
+		if i%2 == 1 {
+			fsys, dir = fs.OSMMap, filepath.Join(tmp, fmt.Sprintf("cg%d", i))
+		}
+		res.Tags["keys_checked_after_compaction_alongside_growth"] += concCompactGrow(r, fsys, dir, res, fmt.Sprintf("C07/compact-grow/%d", i))
+		res.Cases++
+	}
 	st.ops += growReads
 	res.Steps = st.ops
 	res.SpecChecked = st.ops
@@ -701,6 +710,19 @@ func genC10(r *rng, tier string, res *Result) {
 	if bytes.Contains(buf, []byte("startBackgroundWorker")) {
 		res.Findings = append(res.Findings, &Finding{Kind: "spec", Case: "C10", Cmd: "goroutines after Close", Impl: []string{"background worker still running after Close"}, Expected: []string{"no goroutine of the database left"}, Program: []string{}})
 	}
+	// compaction alongside index growth (under the race detector: what compaction reads of the index
+	// geometry outside the lock races with the splits)
+	for i := 0; i < scale(tier, 4, 30); i++ {
+		var fsys fs.FileSystem = tfs.New()
+		dir := "db"
+		if i%2 == 1 {
+			fsys, dir = fs.OSMMap, filepath.Join(tmp, fmt.Sprintf("cg%d", i))
+		}
+		if os.Getenv("PGH_FS") == "mem" {
+			fsys, dir = fs.Mem, fmt.Sprintf("c10cg-%d-%d", res.Seed, i)
+		}
+		res.Tags["keys_checked_after_compaction_alongside_growth"] += concCompactGrow(r, fsys, dir, res, fmt.Sprintf("C10/compact-grow/%d", i))
+	}
 	// Close while a BACKGROUND compaction is in flight (parked at one of its yield points, outside the
 	// database lock): Close may return only after the compaction has finished -- whatever runs it is a
 	// goroutine started by the database
@@ -805,4 +827,94 @@ func c10CloseDuringBackgroundCompaction(r *rng) string {
 		return fmt.Sprintf("after Close and reopen Get(the-key) = %q, %v", clip(string(v)), err)
 	}
 	return ""
+}
+
+// concCompactGrow: Compact runs while writers insert NEW keys (the index grows: every ~22 inserts a
+// bucket is split and part of its keys moves to a new bucket). Whatever compaction has looked at
+// outside the lock is stale after a split. Afterwards every key must be readable with its value and
+// Count must agree; nothing may panic. Returns the number of keys checked.
+func concCompactGrow(r *rng, fsys fs.FileSystem, dir string, res *Result, name string) int {
+	// (the stepping hook of the sequential generators parks compactions at their yield points)
+	pogreb.VerifYield = nil
+	o := &pogreb.Options{FileSystem: fsys}
+	pogreb.VerifSetThresholds(o, 4096, 512, math.Float32frombits(fragBits(0.01)))
+	db, err := pogreb.Open(dir, o)
+	if err != nil {
+		return 0
+	}
+	defer db.Close()
+	var mu sync.Mutex
+	ref := map[string]string{}
+	var bad []string
+	fail := func(f string, a ...interface{}) {
+		mu.Lock()
+		if len(bad) < 4 {
+			bad = append(bad, fmt.Sprintf(f, a...))
+		}
+		mu.Unlock()
+	}
+	nOld := 300 + r.intn(200)
+	for round := 0; round < 2; round++ { // every key twice: the first copies are garbage
+		for i := 0; i < nOld; i++ {
+			k, v := fmt.Sprintf("old-%04d", i), fmt.Sprintf("v%d-%04d-%s", round, i, strings.Repeat("x", r.intn(20)))
+			if db.Put([]byte(k), []byte(v)) == nil {
+				ref[k] = v
+			}
+		}
+	}
+	var wg sync.WaitGroup
+	guard := func(what string) {
+		if rec := recover(); rec != nil {
+			fail("%s: panic: %v", what, rec)
+		}
+	}
+	wg.Add(1)
+	go func() {
+		defer wg.Done()
+		defer guard("Compact")
+		for i := 0; i < 3; i++ {
+			if _, err := db.Compact(); err != nil {
+				fail("Compact: %v", err)
+			}
+		}
+	}()
+	nw := 3 + r.intn(3)
+	for g := 0; g < nw; g++ {
+		wg.Add(1)
+		per := 100 + r.intn(100)
+		go func(g int) {
+			defer wg.Done()
+			defer guard("writer")
+			for i := 0; i < per; i++ {
+				k, v := fmt.Sprintf("new-%d-%04d", g, i), fmt.Sprintf("n%d-%d", g, i)
+				if err := db.Put([]byte(k), []byte(v)); err != nil {
+					fail("Put(%s): %v", k, err)
+					return
+				}
+				mu.Lock()
+				ref[k] = v
+				mu.Unlock()
+			}
+		}(g)
+	}
+	wg.Wait()
+	func() {
+		defer guard("reads after the compaction")
+		if int(db.Count()) != len(ref) {
+			fail("Count() = %d, %d keys were put and none deleted", db.Count(), len(ref))
+		}
+		for k, v := range ref {
+			got, err := db.Get([]byte(k))
+			if err != nil || string(got) != v {
+				fail("Get(%s) = %q, %v after Compact ran alongside Puts of new keys; last acknowledged Put(%s, %s)", k, clip(string(got)), err, k, v)
+				break
+			}
+		}
+	}()
+	if len(bad) > 0 {
+		res.Findings = append(res.Findings, &Finding{Kind: "spec", Case: name, Cmd: "Compact alongside writers that make the index grow",
+			Impl: bad, Expected: []string{"every acknowledged key readable with its value; Count = number of keys; no panic"},
+			Program: []string{fmt.Sprintf("put old-0000..old-%04d twice (4 KiB segments: the first copies are garbage)", nOld-1), "goroutine: Compact x 3", fmt.Sprintf("%d goroutines: Put of 100-200 new keys each", nw), "read everything back"}})
+	}
+	return len(ref)
 }
